@@ -1271,6 +1271,9 @@ def normalize(repo: Repo, ci: Optional[ClassInfo], fn: ast.FunctionDef, sf: Opti
             changed = True
         if changed:
             out = unroll(out, repo, ci, sf)      # `fields = self._FIELDS; for f in fields` now iterates the constant itself
+    if any(isinstance(n, ast.Assign) and isinstance(n.value, ast.Constant) and isinstance(n.value.value, bool) for n in ast.walk(out)) \
+            and any(isinstance(n, ast.For) for n in ast.walk(out)):
+        out = fold_flag_loops(out)
     if any(isinstance(n, ast.With) for n in ast.walk(out)) and any(isinstance(n, ast.Call) and norm(n.func).split(".")[-1] == "suppress" for n in ast.walk(out)):
         out = desugar_suppress(out)
     # named integer constants of the module (`_NOTE_SIZE = 8`, `CHUNK_HEADER_SIZE = 8`) read as their values
@@ -1787,6 +1790,51 @@ def desugar_suppress(fn: ast.FunctionDef) -> ast.FunctionDef:
             return node
     new = copy.deepcopy(fn)
     X().visit(new)
+    ast.fix_missing_locations(new)
+    number(new)
+    return new
+
+
+def fold_flag_loops(fn: ast.FunctionDef) -> ast.FunctionDef:
+    """`found = False; for x in X: if C: found = True; break`  reads as  `found = any(C for x in X)`  (and the True/False mirror image
+    as `not any(...)`).  The loop body must be exactly that `if` (the `break` is optional) and `C` must not call anything."""
+    def rewrite(stmts: List[ast.stmt]) -> List[ast.stmt]:
+        out: List[ast.stmt] = []
+        i = 0
+        while i < len(stmts):
+            st = stmts[i]
+            nxt = stmts[i + 1] if i + 1 < len(stmts) else None
+            done = False
+            if isinstance(st, ast.Assign) and len(st.targets) == 1 and isinstance(st.targets[0], ast.Name) and isinstance(st.value, ast.Constant) \
+                    and isinstance(st.value.value, bool) and isinstance(nxt, ast.For) and not nxt.orelse and len(nxt.body) == 1 \
+                    and isinstance(nxt.body[0], ast.If) and not nxt.body[0].orelse:
+                flag, k0 = st.targets[0].id, st.value.value
+                iff = nxt.body[0]
+                body = [b for b in iff.body if not isinstance(b, ast.Break)]
+                if len(body) == 1 and isinstance(body[0], ast.Assign) and len(body[0].targets) == 1 and norm(body[0].targets[0]) == flag \
+                        and isinstance(body[0].value, ast.Constant) and body[0].value.value is (not k0) \
+                        and not any(isinstance(n, (ast.Call, ast.Await, ast.Yield, ast.YieldFrom, ast.NamedExpr)) for n in ast.walk(iff.test)) \
+                        and not any(isinstance(n, ast.Name) and n.id == flag for n in ast.walk(iff.test)):
+                    gen = ast.GeneratorExp(elt=iff.test, generators=[ast.comprehension(target=nxt.target, iter=nxt.iter, ifs=[], is_async=0)])
+                    val: ast.expr = ast.Call(func=ast.Name(id="any", ctx=ast.Load()), args=[gen], keywords=[])
+                    if k0:
+                        val = ast.UnaryOp(op=ast.Not(), operand=val)
+                    out.append(ast.copy_location(ast.Assign(targets=[ast.Name(id=flag, ctx=ast.Store())], value=val), st))
+                    i += 2
+                    done = True
+            if not done:
+                for fld in ("body", "orelse", "finalbody"):
+                    sub = getattr(st, fld, None)
+                    if isinstance(sub, list) and sub and isinstance(sub[0], ast.stmt) and not isinstance(st, (ast.FunctionDef, ast.ClassDef)):
+                        setattr(st, fld, rewrite(sub))
+                if isinstance(st, ast.Try):
+                    for h in st.handlers:
+                        h.body = rewrite(h.body)
+                out.append(st)
+                i += 1
+        return out
+    new = copy.deepcopy(fn)
+    new.body = rewrite(new.body)
     ast.fix_missing_locations(new)
     number(new)
     return new
